@@ -727,6 +727,21 @@ def neighborlist(ctx):
     cls0 = ctx.fn(NLP, 'NeighborList')
     I0 = sp.Integer
     tab0 = np.array([[I0(v) for v in row] for row in [[2, 1, 12, -7], [0, -7, -7, -7], [3, 0, 2, 11]]], dtype=object)
+    # the same table as it comes back when the rows had to grow (initial storage of one or two slots, a list of three): every neighbour is still there
+    for isz in (1, 2, 3):
+        objg = SymObj(cls0, {}, 'self')
+        evg = SymEval(module_aliases(ctx.mod(NLP)))
+        evg.globals = {'nlist': lambda system, cutoff, **kw: tab0.copy()}
+        try:
+            evg.run_fn(b, [objg, 'SYSTEM', sp.Rational(7, 2)], {'initialsize': I0(isz), 'deltasize': I0(1)})
+            rowsg = [[int(v) for v in evg.call_fn(ctx.fn(NLP, 'NeighborList.__getitem__'), [objg, I0(i)], {}, Path({}))] for i in range(3)]
+            cg = [int(v) for v in evg.getattr(objg, 'coord', None, Path({}))]
+            okg = rowsg == [[1, 12], [], [0, 2, 11]] and cg == [2, 0, 3]
+            detg = 'coord %s lists %s' % (cg, rowsg)
+        except (Opaque, WouldRaise, TypeError, ValueError, IndexError) as e:
+            okg, detg = False, str(e)
+        ctx.ob('NEIGHBORLIST', loc + '.build', 'initial storage %d, longest list 3: after build() every atom\'s list has as many entries as its coordination number says (nothing cut off the grown table)' % isz, bool(okg), detg, node=b,
+               key='build grown %d' % isz)
     seen = []
     obj0 = SymObj(cls0, {}, 'self')
     ev0 = SymEval(module_aliases(ctx.mod(NLP)))
@@ -780,13 +795,23 @@ def neighborlist(ctx):
         lines = [ln + '\n' for ln in text.split('\n')[:-1]]
 
         class Fin(PyStub):
+            # a binary stream with a read position: iterating reads from the position to the end, seek(0) rewinds
+            def __init__(self):
+                self.at = 0
+
             def __enter__(self):
                 return self
 
+            def __exit__(self, *a):
+                return False
+
             def __iter__(self):
-                return iter([_Bytes(x) for x in lines])
+                rest = [_Bytes(x) for x in lines[self.at:]]
+                self.at = len(lines)
+                return iter(rest)
 
             def seek(self, k):
+                self.at = int(k)
                 return None
 
         class _Bytes(PyStub):
@@ -795,21 +820,24 @@ def neighborlist(ctx):
 
             def decode(self, enc='utf-8'):
                 return self.t
-        obj2 = SymObj(cls, {}, 'self')
-        ev = SymEval(module_aliases(ctx.mod(NLP)))
-        ev.globals = {'uber_open_rmode': lambda m: Fin()}
-        ev.np_override = {'numpy.empty': lambda shape, **k: _unspec2(shape)}
-        try:
-            ev.run_fn(ld, [obj2, 'nlist.dat'], {})
-            evr = SymEval(module_aliases(ctx.mod(NLP)))
-            co = evr.getattr(obj2, 'coord', None, Path({}))
-            got = [[int(co[i])] + [int(v) for v in evr.call_fn(ctx.fn(NLP, 'NeighborList.__getitem__'), [obj2, sp.Integer(i)], {}, Path({}))] for i in range(len(co))] if co is not None else None
-            okl = got == [[row[0]] + [int(v) for v in row[1:1 + row[0]]] for row in table]
-            det = str(got)
-        except (Opaque, WouldRaise, TypeError, ValueError, IndexError) as e:
-            okl, det = False, 'load of the dumped text fails: %s' % e
-        ctx.ob('NEIGHBORLIST', loc + '.load', '%s: reading the dumped text back gives every atom the same count and the same neighbour ids in the same order (comment lines skipped)' % tag, okl, det[:200], node=ld, key='load ' + tag)
-
+        for source in ('a file name', 'an open binary stream'):
+            obj2 = SymObj(cls, {}, 'self')
+            ev = SymEval(module_aliases(ctx.mod(NLP)))
+            stream = Fin()
+            # uber_open_rmode opens a name afresh every time it is called; an open stream is handed through as it is (position kept, not closed)
+            ev.globals = {'uber_open_rmode': (lambda m: Fin()) if source == 'a file name' else (lambda m: m)}
+            ev.np_override = {'numpy.empty': lambda shape, **k: _unspec2(shape)}
+            try:
+                ev.run_fn(ld, [obj2, 'nlist.dat' if source == 'a file name' else stream], {})
+                evr = SymEval(module_aliases(ctx.mod(NLP)))
+                co = evr.getattr(obj2, 'coord', None, Path({}))
+                got = [[int(co[i])] + [int(v) for v in evr.call_fn(ctx.fn(NLP, 'NeighborList.__getitem__'), [obj2, sp.Integer(i)], {}, Path({}))] for i in range(len(co))] if co is not None else None
+                okl = got == [[row[0]] + [int(v) for v in row[1:1 + row[0]]] for row in table]
+                det = str(got)
+            except (Opaque, WouldRaise, TypeError, ValueError, IndexError) as e:
+                okl, det = False, 'load of the dumped text fails: %s' % e
+            ctx.ob('NEIGHBORLIST', loc + '.load', '%s, from %s: reading the dumped text back gives every atom the same count and the same neighbour ids in the same order (comment lines skipped)' % (tag, source), okl, det[:200], node=ld,
+                   key='load %s %s' % (tag, source))
 
 def _unspec2(shape):
     import numpy as np
